@@ -260,4 +260,5 @@ MUTANTS = [
     Mutant("mul-null-fastpath-left-copy", UO, "Unit.__mul__", "        base_offset = 0.0\n        if self.base_offset or u.base_offset:\n            if u.dimensions", "        if u.expr is sympy_one and u.base_value == 1.0:\n            return self.copy()\n        base_offset = 0.0\n        if self.base_offset or u.base_offset:\n            if u.dimensions", (), benign=True),
     Mutant("div-scale-multiplied", UO, "Unit.__truediv__", "base_value=(self.base_value / u.base_value)", "base_value=(self.base_value * u.base_value)", ("C05-R1",)),
     Mutant("dimension-not-positive", "unyt/dimensions.py", None, 'luminous_intensity = Symbol("(luminous_intensity)", positive=True)', 'luminous_intensity = Symbol("(luminous_intensity)")', ("C05-R5",)),
+    Mutant("as-coeff-unit-drops-offset", UO, "Unit.as_coeff_unit", "            self.base_offset,\n", "            0.0,\n", ("C05-R1",)),
 ]
